@@ -304,6 +304,7 @@ mod verif_kani_buffer {
         kani::cover!(true);
     }
 
+
     fn resize_case(rows: usize, total: usize, new_cols: usize, new_rows: usize) {
         let mut b = Buffer::new(2, rows, None, None);
         b.lines.clear();
